@@ -53,7 +53,12 @@ def make_world(rng, nf=None, nd=None):
     npos = int(np.prod(shape))
     E = np.array([gen.gen_spectrum(rng, nf, nd, kind=rng.choice(["blobs", "blobs", "noisy", "sparse"]))[0] + 0.0078125
                   for _ in range(npos)]).reshape(tuple(shape) + (nf, nd))
-    da = gen.make_da(freq, dirs, E, extra=extra)
+    da = gen.make_da(freq, dirs, E, extra=extra, dtype=rng.choice(["float64", "float64", "float32"]))
+    if rng.random() < 0.4:
+        # other storage orders, including dir stored before freq and spectral dims first
+        perm = list(da.dims)
+        rng.shuffle(perm)
+        da = da.transpose(*perm).copy()
     lead = [d for d in da.dims if d not in ("freq", "dir")]
 
     def auxarr(lo, hi):
@@ -116,28 +121,42 @@ def make_case(args):
             continue
         try:
             got = norm(op, opcat.canon(compute(C[op](dch, auxch), **kw)), da)
-            rec["diff"] = opcat.compare(got, ref, rel=3e-6 if op in opcat.FLOAT32_OUT else 1e-9, abs_=abs_tol(op, da))
+            f32 = str(da.dtype) == "float32"
+            rec["diff"] = opcat.compare(got, ref, rel=2e-5 if f32 else (3e-6 if op in opcat.FLOAT32_OUT else 1e-9),
+                                        abs_=abs_tol(op, da) * (1e4 if f32 else 1.0))
         except Exception as e:
             rec["crash"] = f"{type(e).__name__}: {str(e)[:240]}"
         out.append(rec)
-    # concurrent watershed calls on datasets of different grid shapes under the threaded scheduler
-    if rng.random() < 0.5:
-        da2, aux2 = make_world(rng, nf=rng.choice([5, 7, 9]), nd=rng.choice([6, 10, 14]))
-        op = rng.choice(["ptm3", "ptm1", "ptm2"])
-        rec = dict(op=f"concurrent:{op}", icase=icase, scheduler="threads", workers=16, shapes=[list(da.shape), list(da2.shape)],
-                   chunks="one spectrum per chunk", dims=list(da.dims), shape=[int(x) for x in da.shape], spectral_split=False)
-        try:
-            ref1 = norm(op, opcat.canon(compute(C[op](da, aux))), da)
-            ref2 = norm(op, opcat.canon(compute(C[op](da2, aux2))), da2)
-            c1 = {d: 1 for d in da.dims if d not in ("freq", "dir")}
-            c2 = {d: 1 for d in da2.dims if d not in ("freq", "dir")}
-            r1 = C[op](da.chunk(c1), aux)
-            r2 = C[op](da2.chunk(c2), aux2)
-            g1, g2 = dask.compute(r1, r2, scheduler="threads", num_workers=16)
-            rec["diff"] = opcat.compare(norm(op, opcat.canon(g1), da), ref1, rel=1e-9) or opcat.compare(norm(op, opcat.canon(g2), da2), ref2, rel=1e-9)
-        except Exception as e:
-            rec["crash"] = f"{type(e).__name__}: {str(e)[:240]}"
-        out.append(rec)
+    # concurrent watershed calls under the threaded scheduler: many spectra, one per chunk, two datasets of different grid
+    # shapes computed in the same dask.compute call (static C buffers, any Python-level shared scratch space)
+    if icase % 3 == 0:
+        import xarray as xr
+
+        def big_world(nf, nd, nt, ns):
+            freq, _ = gen.gen_freq(rng, nf, kind="log")
+            dirs, _ = gen.gen_dirs(rng, nd, order="sorted")
+            E = np.array([gen.gen_spectrum(rng, nf, nd, kind=rng.choice(["blobs", "noisy"]))[0] + 0.0078125 for _ in range(nt * ns)]).reshape((nt, ns, nf, nd))
+            tvals = (np.array(["2020-01-01T00:00:00"], dtype="datetime64[s]") + np.arange(nt) * np.timedelta64(3600, "s")).astype("datetime64[ns]")
+            d = gen.make_da(freq, dirs, E, extra=[("time", tvals), ("site", np.arange(ns, dtype=float))])
+            mk = lambda lo, hi: xr.DataArray(np.array([[rng.uniform(lo, hi) for _ in range(ns)] for _ in range(nt)]), dims=("time", "site"),
+                                             coords={"time": d.time, "site": d.site})
+            return d, dict(wspd=mk(2, 20), wdir=mk(0, 360), dpt=mk(8, 300))
+
+        dA, auxA = big_world(rng.choice([8, 10]), rng.choice([12, 16]), 6, 4)
+        dB, auxB = big_world(rng.choice([5, 7, 9]), rng.choice([6, 10, 14]), 4, 3)
+        for op in ("ptm1", "ptm2", "ptm3"):
+            rec = dict(op=f"concurrent:{op}", icase=icase, scheduler="threads", workers=16, shapes=[list(dA.shape), list(dB.shape)],
+                       chunks="one spectrum per chunk", dims=list(dA.dims), shape=[int(x) for x in dA.shape], spectral_split=False)
+            try:
+                ref1 = norm(op, opcat.canon(compute(C[op](dA, auxA))), dA)
+                ref2 = norm(op, opcat.canon(compute(C[op](dB, auxB))), dB)
+                r1 = C[op](dA.chunk({"time": 1, "site": 1}), auxA)
+                r2 = C[op](dB.chunk({"time": 1, "site": 1}), auxB)
+                g1, g2 = dask.compute(r1, r2, scheduler="threads", num_workers=16)
+                rec["diff"] = opcat.compare(norm(op, opcat.canon(g1), dA), ref1, rel=1e-9) or opcat.compare(norm(op, opcat.canon(g2), dB), ref2, rel=1e-9)
+            except Exception as e:
+                rec["crash"] = f"{type(e).__name__}: {str(e)[:240]}"
+            out.append(rec)
     return out
 
 
